@@ -19,6 +19,9 @@ pub enum Canon {
     Ok(String),
     Rejected(String),
     NotFixpoint,
+    /// the library's spelling ends in a line break or holds an empty line although the content had none:
+    /// written into a text block it would leave a blank line between two fields
+    BlankLine(String),
     Panic,
 }
 
@@ -35,6 +38,13 @@ pub fn canonical(tag: &str, content: &str) -> Canon {
     let Some((t, body)) = tok::split_swift_string(&s) else { return Canon::NotFixpoint };
     if t != tag {
         return Canon::NotFixpoint;
+    }
+    let blank = |x: &str| {
+        let n = tok::normalize_newlines(x);
+        n.ends_with('\n') || n.starts_with('\n') || n.contains("\n\n")
+    };
+    if blank(&body) && !blank(content) {
+        return Canon::BlankLine(body);
     }
     match guard(|| (ops.parse)(&body)) {
         Ok(Ok(v2)) => match guard(|| v2.to_swift()) {
